@@ -40,8 +40,8 @@ U8Cont(u, b) ==
 U8Len(c) == IF c < 128 THEN 1 ELSE IF c < 2048 THEN 2 ELSE IF c < 65536 THEN 3 ELSE 4
 U8Encode(c) ==
   IF c < 128 THEN <<c>>
-  ELSE IF c < 2048 THEN <<192 + c \div 64, 128 + c % 64>>
-  ELSE IF c < 65536 THEN <<224 + c \div 4096, 128 + (c \div 64) % 64, 128 + c % 64>>
-  ELSE <<240 + c \div 262144, 128 + (c \div 4096) % 64, 128 + (c \div 64) % 64, 128 + c % 64>>
+  ELSE IF c < 2048 THEN <<192 + (c \div 64), 128 + (c % 64)>>
+  ELSE IF c < 65536 THEN <<224 + (c \div 4096), 128 + ((c \div 64) % 64), 128 + (c % 64)>>
+  ELSE <<240 + (c \div 262144), 128 + ((c \div 4096) % 64), 128 + ((c \div 64) % 64), 128 + (c % 64)>>
 IsScalar(c) == (c >= 0 /\ c <= 55295) \/ (c >= 57344 /\ c <= 1114111)
 =============================================================================
